@@ -4,6 +4,7 @@ recursive functions of Model/Init.lean (`designation` … `initializer2`), with 
 type" (`shape`) and "string tokens have a string element size" (`toksOK`).
 -/
 import ChibiVerif.Lemmas.C13InitBase
+import ChibiVerif.Lemmas.InitBracedStr
 
 namespace ChibiVerif.C13Init
 open ChibiVerif.Init
@@ -528,6 +529,22 @@ theorem unionInit_succ (f : Nat) (ih : NC f) (ms : Members) (toks : List ITok) (
         intro r1 hr1
         exact Safe.pure ⟨unOK_setChild hinit' _ mi t r1.1 hk' hr1.1, hr1.2⟩
 
+/-- the braced-string branch of `initializer2` (C11 6.7.9p14-15): the literal has one of tokenize's element sizes and what
+    follows the closing brace is a well-formed token list -/
+theorem bracedStr_toksOK {elem : Ty} {r : List ITok} {id : Nat} {bytes : List Nat} {esz : Nat} {rest : List ITok}
+    (h : bracedStr elem r = some (id, bytes, esz, rest)) (hr : toksOK r = true) :
+    (esz = 1 ∨ esz = 2 ∨ esz = 4) ∧ toksOK rest = true := by
+  obtain ⟨tail, rfl, hce, _, _⟩ := bracedStr_some h
+  have h1 := toksOK_head hr
+  simp only [tokOK, Bool.or_eq_true, beq_iff_eq] at h1
+  refine ⟨by omega, ?_⟩
+  have h2 := toksOK_tail hr
+  unfold consumeEnd at hce
+  split at hce
+  · cases hce; exact toksOK_tail h2
+  · cases hce; exact toksOK_tail (toksOK_tail h2)
+  · cases hce
+
 theorem initializer2_succ (f : Nat) (ih : NC f) (ty : Ty) (toks : List ITok) (init : Init) (hty : tyOK ty = true)
     (hinit : shape ty init = true) (htoks : toksOK toks = true) :
     Safe (Post ty) (initializer2 (f + 1) ty toks init) := by
@@ -544,7 +561,11 @@ theorem initializer2_succ (f : Nat) (ih : NC f) (ty : Ty) (toks : List ITok) (in
         simp only [tokOK, Bool.or_eq_true, beq_iff_eq] at this
         exact postA_array (stringInitializer_safe elem bytes esz r init hty' (by omega) hi (toksOK_tail htoks))
       · intro _; exact postA_array (ih.arrayInit2 elem _ init 0 hty' hi htoks)
-    · exact postA_array (ih.arrayInit1 elem _ init hty' hi htoks)
+    · split
+      · rename_i hbs
+        obtain ⟨h1, h2⟩ := bracedStr_toksOK hbs (toksOK_tail htoks)
+        exact postA_array (stringInitializer_safe elem _ _ _ init hty' h1 hi h2)
+      · exact postA_array (ih.arrayInit1 elem _ init hty' hi htoks)
     · exact postA_array (ih.arrayInit2 elem _ init 0 hty' hi htoks)
   | inc elem =>
     have hty' : tyOK elem = true := by simpa [tyOK] using hty
@@ -558,7 +579,11 @@ theorem initializer2_succ (f : Nat) (ih : NC f) (ty : Ty) (toks : List ITok) (in
         simp only [tokOK, Bool.or_eq_true, beq_iff_eq] at this
         exact postA_inc (stringInitializer_safe elem bytes esz r init hty' (by omega) hi (toksOK_tail htoks))
       · intro _; exact postA_inc (ih.arrayInit2 elem _ init 0 hty' hi htoks)
-    · exact postA_inc (ih.arrayInit1 elem _ init hty' hi htoks)
+    · split
+      · rename_i hbs
+        obtain ⟨h1, h2⟩ := bracedStr_toksOK hbs (toksOK_tail htoks)
+        exact postA_inc (stringInitializer_safe elem _ _ _ init hty' h1 hi h2)
+      · exact postA_inc (ih.arrayInit1 elem _ init hty' hi htoks)
     · exact postA_inc (ih.arrayInit2 elem _ init 0 hty' hi htoks)
   | struct ms n fl =>
     have hms : msOK ms = true := by
